@@ -24,6 +24,7 @@ import XotModel.Driver.Accepted
 import XotModel.Driver.Fprefix
 import XotModel.Driver.Fanyorder
 import XotModel.Driver.Fanyorder2
+import XotModel.Driver.Fanyorder3
 import XotModel.Driver.Fidx
 import XotModel.Driver.Fcreation
 import XotModel.Driver.Bytes
@@ -72,6 +73,7 @@ def dispatchAll (st : MState) (line : String) : MState × String :=
      | none => (st, "bad-request"))
   | "forest" :: "prog" :: rest => (st, (handleFanyorder st.forest rest).getD "bad-request")
   | "forest" :: "prog2" :: rest => (st, (handleFanyorder2 st.forest rest).getD "bad-request")
+  | "forest" :: "prog3" :: rest => (st, (handleFanyorder3 st.forest rest).getD "bad-request")
   | "forest" :: "spec" :: _ | "forest" :: "specx" :: _ | "forest" :: "specp" :: _ | "forest" :: "specpx" :: _
   | "forest" :: "specpc" :: _ | "forest" :: "specpk" :: _ | "forest" :: "specpkx" :: _ =>
     let ws := (words line).drop 1
